@@ -29,6 +29,7 @@ type Opts struct {
 	IntroGates       bool // gate the introducer at the start of a persist swap / merge introduction
 	NapUnderNumFiles int  // PersisterNapUnderNumFiles (0 = default 1000): small values make the persister wait for the merger
 	ReuseBatch       bool // every caller re-uses one Batch object (Reset between calls)
+	NoAsyncErr       bool // leave Config.AsyncError nil (the default of the public configuration)
 }
 
 // Sys is one incarnation of a writer under the controller.
@@ -165,11 +166,13 @@ func NewSys(c *Ctl, o Opts) *Sys {
 		}()
 	}
 	ic.EventCallback = s.onEvent
-	ic.AsyncError = func(err error) {
-		s.mu.Lock()
-		s.AsyncErrs++
-		s.mu.Unlock()
-		c.Log("AsyncError", "msg", err.Error())
+	if !o.NoAsyncErr {
+		ic.AsyncError = func(err error) {
+			s.mu.Lock()
+			s.AsyncErrs++
+			s.mu.Unlock()
+			c.Log("AsyncError", "msg", err.Error())
+		}
 	}
 	s.Cfg = cfg.VerifWithIndexConfig(ic)
 	return s
